@@ -407,6 +407,20 @@ func c13Levels(tier string) []core.Level {
 			}
 		}},
 	}
+	lv = append(lv, core.Level{Name: "re-escaping: every escaper on every escaper's output of every boundary character, alone and embedded in text (a 'do not double-encode' shortcut is lossy)", Gen: func(emit func(core.Case)) {
+		for _, e2 := range escapers {
+			for _, x := range c13Boundary {
+				o, _ := safeEscape(e2.fn, x)
+				emit(core.Case{Fam: "str", Src: o})
+				emit(core.Case{Fam: "str", Src: "a " + o + " b" + o})
+				emit(core.Case{Fam: "str", Src: o + o})
+			}
+		}
+		for _, w := range []string{"&lt;", "&gt;", "&amp;", "&quot;", "&#39;", "&#039;", "&#x27;", "&apos;", "&amp;amp;", "&lt", "&;", "&#;", "\\u003C", "\\x3C", "\\3C ", "%3C", "%253C", "%", "\\", "&#60;", "&#x3C;", "&copy;", "&LT;"} {
+			emit(core.Case{Fam: "str", Src: w})
+			emit(core.Case{Fam: "str", Src: "x" + w + "y" + w})
+		}
+	}})
 	if thorough(tier) {
 		lv = append(lv, core.Level{Name: "every triple over the 29-character boundary alphabet", Gen: func(emit func(core.Case)) {
 			for _, x := range c13Boundary {
@@ -471,6 +485,17 @@ func c13CheckOne(e escaper, s string, valid bool) (string, string) {
 	if e.name == "css" && strings.ContainsRune(s, 0) {
 		return "", out // U+0000 cannot be represented in CSS at all (an escaped 0 reads as U+FFFD)
 	}
+	if utf8.RuneCountInString(s) > 1 && e.name != "url" {
+		// escaping is a per-character substitution
+		parts := ""
+		for _, r := range s {
+			o, _ := safeEscape(e.fn, string(r))
+			parts += o
+		}
+		if parts != out {
+			return "not-per-character", fmt.Sprintf("%s(%q) = %q but the concatenation of its characters' escapes is %q", e.name, s, out, parts)
+		}
+	}
 	if !ok || dec != want {
 		if e.name == "css" && utf8.RuneCountInString(s) > 1 && cssOnlyUnterminated(e, s) {
 			return "lossy/css-escape-not-self-terminating", fmt.Sprintf("%s(%q) = %q, which the css decoder reads back as %q (each character's escape is correct alone)", e.name, s, out, dec)
@@ -512,6 +537,22 @@ func c13Run(c core.Case) core.Result {
 			sb.WriteString(out)
 		}
 		return core.Okay(true, sb.String())
+	case "str":
+		if !utf8.ValidString(c.Src) {
+			return core.Skipped("invalid-utf8")
+		}
+		for _, e := range escapers {
+			class, out := c13CheckOne(e, c.Src, true)
+			if class != "" {
+				r := core.Violation(class, out)
+				if i := strings.Index(class, "/"); i > 0 {
+					r.Why, r.Sig = class[:i], class[i+1:]
+				}
+				return r
+			}
+			sb.WriteString(out)
+		}
+		return core.Okay(true, sb.String())
 	case "seq":
 		s := strings.Join(c.Args, "")
 		for _, e := range escapers {
@@ -544,7 +585,7 @@ func init() {
 		ID:       "C13",
 		Category: "exploration",
 		Rule: "all five escapers on every Unicode scalar value as a one-character string (complete: 1 112 064), every invalid byte / truncated sequence (alphabet only), " +
-			"every pair over a 29-character boundary alphabet and every triple over a 10-character sub-alphabet (thorough: all boundary triples, 4- and 5-tuples); " +
+			"every pair over a 29-character boundary alphabet and every triple over a 10-character sub-alphabet (thorough: all boundary triples, 4- and 5-tuples), and every escaper applied to every escaper's own output vocabulary (entities, \\u / \\X / %XX sequences) alone and embedded in text; " +
 			"oracles: output alphabet of the context, decode(escape(s)) == s with a decoder of the target context written from its specification, and escape(xy) == escape(x)+escape(y); " +
 			"every case is distinct and non-trivial (each exercises all five escapers)",
 		Assumptions: []string{
